@@ -937,14 +937,23 @@ def _factorize_single(by, expect, *, sort: bool, reindex: bool) -> tuple[pd.Inde
         # make it behave like pd.cut which uses -1:
         if len(bins) > 1:
             right = expect.closed_right
+            as_int = bins.dtype.kind in "mM"
+            if as_int:
+                # compare labels and edges as integers of ONE unit (the finer of the two, so nothing is rounded);
+                # NaT becomes the smallest integer, outside every bin
+                unit = np.promote_types(flat.dtype, bins.dtype)
+                flat, bins = flat.astype(unit, copy=False), bins.astype(unit, copy=False)
             idx = np.digitize(
-                flat,
-                bins=bins.view(np.int64) if bins.dtype.kind == "M" else bins,
+                flat.view(np.int64) if as_int else flat,
+                bins=bins.view(np.int64) if as_int else bins,
                 right=right,
             )
             idx -= 1
             within_bins = flat <= bins.max() if right else flat < bins.max()
             idx[~within_bins] = -1
+            if expect.closed == "neither":
+                # open on both sides: a label that sits on an edge belongs to no bin (like pandas.cut)
+                idx[np.isin(flat, bins)] = -1
         else:
             idx = np.zeros_like(flat, dtype=np.intp) - 1
         found_groups = cast(pd.Index, expect)
